@@ -538,3 +538,76 @@ Proof.
   rewrite (resolve_fp_ends _ Ho Hr).
   destruct (fs_fp (file_fs (f_chain f))); [exact Hf | apply Hd; exact Hs].
 Qed.
+
+(* ------------------------------------------------------------------ defaults of the integer kinds *)
+From Coq Require Import ZArith Ascii String Decimal DecimalString DecimalZ DecimalPos.
+
+(* the decimal text of an integer, as a compiler writes default_value *)
+Definition render_int (z : Z) : string := NilZero.string_of_int (Z.to_int z).
+
+Lemma string_of_uint_digit_head : forall d, d <> Nil ->
+  exists c r, NilEmpty.string_of_uint d = String c r /\ Ascii.eqb c "-"%char = false /\ Ascii.eqb c "+"%char = false.
+Proof.
+  intros d H. destruct d; [contradiction | | | | | | | | | |]; cbn [NilEmpty.string_of_uint];
+    eexists _, _; (split; [reflexivity | split; reflexivity]).
+Qed.
+
+Lemma parse_uint_text_rendered : forall p,
+  parse_uint_text (NilEmpty.string_of_uint (Pos.to_uint p)) = Some (Z.pos p).
+Proof.
+  intro p. pose proof (Unsigned.to_uint_nonnil p) as Hn.
+  destruct (string_of_uint_digit_head _ Hn) as (c & r & Hs & _).
+  unfold parse_uint_text. rewrite Hs. rewrite <- Hs. rewrite NilEmpty.usu.
+  f_equal. pose proof (DecimalZ.of_to (Z.pos p)) as H. cbn [Z.to_int Z.of_int] in H. exact H.
+Qed.
+
+Lemma parse_int_text_rendered : forall z, parse_int_text (render_int z) = Some z.
+Proof.
+  intros [| p | p]; unfold render_int; cbn [Z.to_int NilZero.string_of_int].
+  - vm_compute. reflexivity.
+  - pose proof (Unsigned.to_uint_nonnil p) as Hn.
+    assert (Hz : NilZero.string_of_uint (Pos.to_uint p) = NilEmpty.string_of_uint (Pos.to_uint p))
+      by (destruct (Pos.to_uint p); [contradiction | reflexivity ..]).
+    rewrite Hz. destruct (string_of_uint_digit_head _ Hn) as (c & r & Hs & Hm & Hp).
+    unfold parse_int_text. rewrite Hs, Hm, Hp. rewrite <- Hs. apply parse_uint_text_rendered.
+  - pose proof (Unsigned.to_uint_nonnil p) as Hn.
+    assert (Hz : NilZero.string_of_uint (Pos.to_uint p) = NilEmpty.string_of_uint (Pos.to_uint p))
+      by (destruct (Pos.to_uint p); [contradiction | reflexivity ..]).
+    rewrite Hz. unfold parse_int_text.
+    change (Ascii.eqb (Ascii true false true true false true false false) "-"%char) with true. cbn iota.
+    rewrite parse_uint_text_rendered. reflexivity.
+Qed.
+
+Lemma parse_uint_text_rendered_nonneg : forall z, (0 <= z)%Z -> parse_uint_text (render_int z) = Some z.
+Proof.
+  intros [| p | p] H; unfold render_int; cbn [Z.to_int NilZero.string_of_int].
+  - vm_compute. reflexivity.
+  - pose proof (Unsigned.to_uint_nonnil p) as Hn.
+    assert (Hz : NilZero.string_of_uint (Pos.to_uint p) = NilEmpty.string_of_uint (Pos.to_uint p))
+      by (destruct (Pos.to_uint p); [contradiction | reflexivity ..]).
+    rewrite Hz. apply parse_uint_text_rendered.
+  - exfalso. apply H. reflexivity.
+Qed.
+
+(* Default() of an integer kind is the number whose decimal text default_value holds, for every number in the
+   range of the kind *)
+Theorem default_int_of_rendered_lemma : forall k signed bits z,
+  int_kind k = Some (signed, bits) -> int_in_range signed bits z = true ->
+  default_int k (Some (render_int z)) = z.
+Proof.
+  intros k signed bits z Hk Hr. unfold default_int, parse_default_int. rewrite Hk.
+  destruct signed.
+  - rewrite parse_int_text_rendered, Hr. reflexivity.
+  - assert (H0 : (0 <= z)%Z).
+    { unfold int_in_range in Hr. apply andb_prop in Hr. destruct Hr as [Hr _]. apply Z.leb_le. exact Hr. }
+    rewrite (parse_uint_text_rendered_nonneg z H0), Hr. reflexivity.
+Qed.
+
+(* and it is what the runtime reads from the same text, whenever the runtime accepts it *)
+Theorem default_int_eq_runtime_lemma : forall k text v,
+  rt_default_int k text = Some v -> default_int k text = v.
+Proof.
+  intros k [t |] v H; unfold rt_default_int in H; unfold default_int.
+  - rewrite H. reflexivity.
+  - injection H as H. exact H.
+Qed.
